@@ -13,8 +13,8 @@ from ..core import Violation, Outcome
 ID = 'C09'
 TITLE = 'xref aliasing, order independence, termination'
 RULE = ('data nodes (scalars, lists, mappings, !call producing fresh objects) spread over 1-3 documents and up to 12 (chain mode: 30) '
-        '!xref/!ref nodes at top level, inside a mapping, inside a list and inside call arguments, each pointing to a data node, an element '
-        'inside a container, a value that evaluates to something falsy, another reference, a later-defined path, a missing path (also one that would be a valid subscript of the evaluated value of its prefix), itself, its own '
+        '!xref/!ref nodes (next to flat keys spelled like nested paths) at top level, inside a mapping, inside a list and inside call arguments, each pointing to a data node, an element '
+        'inside a container, a value that evaluates to something falsy, another reference, a later-defined path, a missing path (also one that would be a valid subscript of the evaluated value of its prefix), the empty path, itself, its own '
         'container or closing a cycle; optionally an earlier document holding a plain string spelled like the referenced path (or another '
         'scalar) under the key of a reference; optionally a previous build with the same EvalContext; '
         'non-trivial = identity checked on a fresh mutable target through a chain of length >=2 or with fan-in >=2, or the graph has a '
@@ -69,7 +69,7 @@ def _case(draw):
             else:
                 s['to'] = DATA_TARGETS[draw(st.integers(0, len(DATA_TARGETS) - 1))]
         else:
-            kind = draw(st.sampled_from(['data'] * 6 + ['ref'] * 5 + ([] if clean else ['missing', 'self', 'deepmissing'])))
+            kind = draw(st.sampled_from(['data'] * 6 + ['ref'] * 5 + ([] if clean else ['missing', 'self', 'deepmissing', 'root'])))
             if kind == 'ref' and clean and i + 1 >= nrefs:
                 kind = 'data'
             if kind == 'data':
@@ -81,13 +81,15 @@ def _case(draw):
                 s['to'] = slots[draw(st.integers(i + 1 if clean else 0, nrefs - 1))]['path']
             elif kind == 'missing':
                 s['to'] = [draw(st.sampled_from(['nope', 'd9']))]
+            elif kind == 'root':
+                s['to'] = []            # the empty path: the whole config, which contains the reference itself
             elif kind == 'deepmissing':
                 # the last four are not nodes of the config although the *evaluated* value of their prefix could be subscripted that way
                 s['to'] = draw(st.sampled_from([['d1', 'x'], ['d2', 7], ['d3', 'm', 'zz'], ['box', 'none'],
                                                 ['s1', 0], ['s1', -1], ['f1', 'called'], ['f1', 'kw']]))
             else:
                 s['to'] = s['path']
-    order = draw(st.permutations(['d1', 'd2', 'd3', 'f1', 'f2', 'box', 'arr', 'e1', 'e2', 'e0', 's1'] + [s['path'][0] for s in slots if len(s['path']) == 1]))
+    order = draw(st.permutations(['d1', 'd2', 'd3', 'f1', 'f2', 'box', 'arr', 'e1', 'e2', 'e0', 's1', 'd3.m', 'd2[1]'] + [s['path'][0] for s in slots if len(s['path']) == 1]))
     ndocs = draw(st.integers(1, 3))
     split = [draw(st.integers(0, ndocs - 1)) for _ in order]
     # an earlier document may already hold something else under the key of a top-level reference: a plain string spelled exactly like
@@ -108,12 +110,13 @@ def docs(case):
     slots = case['slots']
 
     def ref(s):
-        return tdoc.raw(pstr(s['to']), s['tag'])
+        return tdoc.raw(pstr(s['to']), s['tag'], **({} if s['to'] else {'q': 'dq'}))
     top = {
         'd1': tdoc.sc(5),
         'd2': tdoc.sq([tdoc.sc(1), tdoc.mp([('k', tdoc.sc(2))], flow=True)], flow=True),
         'd3': tdoc.mp([('m', tdoc.mp([('n', tdoc.sc(3))], flow=True)), ('l', tdoc.sq([tdoc.sc(4), tdoc.sc(5)], flow=True)), ('z', tdoc.sq([], flow=True))]),
         'e1': tdoc.sq([], flow=True), 'e2': tdoc.mp([], flow=True), 'e0': tdoc.sc(0.0), 's1': tdoc.sc('resnet'),
+        'd3.m': tdoc.sq([tdoc.sc(77)], flow=True), 'd2[1]': tdoc.sc(78),     # flat keys spelled like the paths d3.m and d2[1]: never what a reference means
         'f1': tdoc.mp([], flow=True, tag='!call:vfrec.call_1'),
         'f2': tdoc.mp([('x', tdoc.sc(0))] + [(s['path'][1], ref(s)) for s in slots if s['path'][0] == 'f2'], tag='!call:vfrec.call_2'),
         'box': tdoc.mp([('v', tdoc.sc(8))] + [(s['path'][1], ref(s)) for s in slots if s['path'][0] == 'box']),
